@@ -113,7 +113,10 @@ func genTableWorld(r *Rng, mix tableMix) *World {
 			case 2:
 				op.Methods = []string{pick(r, anyMethods)} // possibly one it never had
 			case 3:
-				op.Methods = []string{"OPTIONS"}
+				op.Methods = []string{pick(r, []string{"OPTIONS", "TRACE"})}
+				if r.Pct(30) {
+					op.Methods = []string{pick(r, live), "TRACE"}
+				}
 			case 4:
 				op.Methods = []string{pick(r, live), pick(r, anyMethods)}
 			case 5:
